@@ -601,57 +601,65 @@ def run_chain_case(ctx):
                       "sweep-energy|not-the-minimum-of-its-micro-iterations", sweep=s, reported=en, minimum=m0)
 
     # ---- (c)/(d) equality wherever the local problem is the whole sector ------------------------------------------
+    def settled(c):
+        """The solver call returned eigenpairs, not merely Ritz pairs: direct solver, or Davidson flagged convergence."""
+        return c["solver"] == "eigh_direct" or (c["conv"] is not None and all(c["conv"]))
+
+    sfx = ("|omega" if omega is not None else "") + ("|inverse" if inverse < 0 else "") + ("|stacked" if stacked else "")
     complete_sweeps = []
+    nexec = len(sweeps)
+    stop = False
     for s, sw in enumerate(sweeps):
         sl = calls[sw["first"]:sw["last"]]
         comp = [c for c in sl if c["local_dim"] == ds]
         if comp:
             complete_sweeps.append(s)
         for c in comp:
+            e = np.sort(c["e"])
+            want = a[:len(e)]
             if c["solver"] == "eigh_direct":
-                e = np.sort(c["e"])
+                # the local matrix is A in another orthonormal basis: its lowest eigenvalues are the exact ones
                 ctx.count("oracle")
                 ctx.count("equality_checked")
-                ctx.cls("equality-checked")
-                want = a[:len(e)]
-                err = float(np.max(np.abs(e - want) / np.maximum(1.0, np.abs(want))))
-                ctx.metric_max("complete-direct-relerr", err)
-                if err > 1e-8 + 1e-10 * specr:
-                    ctx.violate(f"complete-local-problem|energy-differs-from-exact|{method}|direct"
-                                + ("|omega" if omega is not None else "") + ("|stacked" if stacked else ""),
+                ctx.cls("equality-checked", "equality-checked:direct")
+                err = float(np.max(np.abs(e - want) / (1e-8 * np.maximum(1.0, np.abs(want)) + 1e-10 * specr)))
+                ctx.metric_max("complete-direct-err/tol", err)
+                if err > 1:
+                    ctx.violate(f"complete-local-problem|energy-differs-from-exact|{method}|direct" + sfx,
                                 sweep=s, got=e, exact=want)
+                    stop = True
                     break
+            elif settled(c):
+                # Davidson flagged |de| < 1e-12 and |r| < 1e-6 for every root: each value lies within |r| of an eigenvalue
+                # of A (it need not be the lowest one: a Krylov space started inside an invariant subspace of a
+                # Hamiltonian with undeclared symmetries never leaves it)
+                ctx.count("oracle")
+                ctx.count("equality_checked")
+                ctx.cls("equality-checked", "equality-checked:iterative-converged")
+                dist = np.array([np.min(np.abs(a - x)) for x in e])
+                err = float(np.max(dist / (2e-6 * np.maximum(1.0, np.abs(e)) + 1e-10 * specr)))
+                ctx.metric_max("complete-iterative-dist-to-spectrum/tol", err)
+                if err > 1:
+                    ctx.violate(f"complete-local-problem|converged-davidson-value-not-in-spectrum|{method}" + sfx,
+                                sweep=s, got=e, lowest_exact=want, dist=dist)
+                    stop = True
+                    break
+                ctx.cls("complete-iterative:lowest-found" if np.all(np.abs(e - want) <= 2e-6 * np.maximum(1.0, np.abs(want))
+                                                                  + 1e-10 * specr) else "complete-iterative:higher-eigenvalues-found")
             else:
-                e = np.sort(c["e"])
-                want = a[:len(e)]
-                ctx.metric_max("complete-iterative-relerr(any sweep)",
+                ctx.cls("complete-iterative:davidson-not-converged" + ("|omega" if omega is not None else ""))
+                ctx.metric_max("complete-iterative-unconverged-relerr",
                                float(np.max(np.abs(e - want) / np.maximum(1.0, np.abs(want)))))
-    nexec = len(sweeps)
-
-    def settled(c):
-        """The solver call returned eigenpairs, not merely Ritz pairs: direct solver, or Davidson flagged convergence."""
-        return c["solver"] == "eigh_direct" or (c["conv"] is not None and all(c["conv"]))
-
-    last_complete = ([c for c in calls[sweeps[-1]["first"]:sweeps[-1]["last"]] if c["local_dim"] == ds] if sweeps else [])
-    # generic start (Mps.random) required when Davidson is involved: a Krylov method started inside an invariant subspace
-    # of a Hamiltonian with undeclared symmetries never leaves it
-    final_ok = (bool(last_complete) and all(settled(c) for c in last_complete)
-                and (all(c["solver"] == "eigh_direct" for c in last_complete) or "random" in start_desc))
-    if last_complete and not all(settled(c) for c in last_complete):
-        ctx.cls("davidson-not-converged-in-final-sweep" + ("|omega" if omega is not None else ""))
-    if len(complete_sweeps) >= 3 and complete_sweeps[-1] == nexec - 1 and len(energies) == nexec and final_ok:
-        # lowest reported energies after >= 3 sweeps that each diagonalised A itself
-        last = np.sort(np.array(energies[-1], dtype=float).reshape(-1))
-        want = a[:len(last)]
-        err = float(np.max(np.abs(last - want) / np.maximum(1.0, np.abs(want))))
-        ctx.count("oracle")
-        ctx.count("equality_checked")
-        ctx.cls("equality-checked", "equality-checked:final-sweep")
-        ctx.metric_max("final-sweep-relerr", err)
-        if err > 2e-6 + 1e-10 * specr:
-            ctx.violate(f"full-bond-dimension|final-energy-differs-from-exact|{tag}|{solver_used}"
-                        + ("|omega" if omega is not None else "") + ("|stacked" if stacked else "")
-                        + (f"|nroots>1" if nroots > 1 else ""), got=last, exact=want, complete_sweeps=complete_sweeps)
+        if stop:
+            break
+        # a sweep that contains a directly solved complete micro-iteration reports the exact lowest eigenvalue
+        if any(c["solver"] == "eigh_direct" for c in comp) and s < len(energies):
+            got0 = float(np.array(energies[s], dtype=float).reshape(-1)[0])
+            ctx.count("oracle")
+            ctx.count("equality_checked")
+            ctx.cls("equality-checked:sweep-energy")
+            ctx.check(abs(got0 - a[0]) <= 1e-8 * max(1.0, abs(a[0])) + 1e-10 * specr,
+                      f"full-bond-dimension|sweep-energy-differs-from-exact|{method}|direct" + sfx, sweep=s, got=got0, exact=a[0])
     full_sweeps = [s for s in range(nexec) if not truncating[s]]
     if full_sweeps and not complete_sweeps:
         ctx.cls("full-M-incomplete")
